@@ -706,6 +706,7 @@ static int _fetch_and_process_packet(OggVorbis_File *vf,
                                      int readp,
                                      int spanp){
   ogg_page og;
+  int hs=0;
 
   /* handle one packet.  Try to fetch it from current stream state */
   /* extract packets from page */
@@ -832,6 +833,9 @@ static int _fetch_and_process_packet(OggVorbis_File *vf,
               _decode_clear(vf);
 
               if(!vf->seekable){
+                /* the application's half-rate request outlives the
+                   link whose headers we are about to drop */
+                hs=vorbis_synthesis_halfrate_p(vf->vi);
                 vorbis_info_clear(vf->vi);
                 vorbis_comment_clear(vf->vc);
               }
@@ -888,6 +892,7 @@ static int _fetch_and_process_packet(OggVorbis_File *vf,
 
           int ret=_fetch_headers(vf,vf->vi,vf->vc,NULL,NULL,&og);
           if(ret)return(ret);
+          if(hs>0)vorbis_synthesis_halfrate(vf->vi,1);
           vf->current_serialno=vf->os.serialno;
           vf->current_link++;
           link=0;
